@@ -143,6 +143,13 @@ def generate(rng, index, tier):
                                                           uhdr=(rng.pick([2, 3, 0x12, 0x102]), rng.pick([4, 2, 0])), udata=rows_))
                 threads[b]['ops'].append(worlds.op_sample(rng, flags=8, thd=None, uhdr=(rng.pick([0, 1, 4]), 3), udata=[[rng.randrange(1, 1 << 40) for _w in range(4)]]))
                 continue
+            if rng.chance(0.08):
+                # thread a announces, with another pid and name, the very thread id that one of thread b's pairs announces
+                nb_ = [op for op in threads[b]['ops'] if op.get('k') == 'seq' and len(op['ops']) == 2 and op['ops'][0].get('name') == 'TRACE_DATA_NEWTHREAD']
+                if nb_:
+                    born_ = rng.pick(nb_)['ops'][0]['a'][0]
+                    threads[a]['ops'].insert(rng.randrange(len(threads[a]['ops']) + 1), worlds.op_newthread(rng, born_, 75000 + rng.randrange(99), rng.ident()))
+                    continue
             if rng.chance(0.1):
                 # a call of thread a returns (or takes) the very pid that thread b's announcement pair names: a number, nothing more
                 pr_ = [op['ops'][0] for op in threads[b]['ops'] if op.get('k') == 'seq' and len(op['ops']) == 2 and op['ops'][0].get('name', '').startswith('TRACE_DATA')]
@@ -212,8 +219,15 @@ def generate(rng, index, tier):
     if changed:
         per = kernel.expand_threads(threads, ids)
         schedules = [draw_sensitive(rng, per, table) for _ in range(4)] + [kernel.draw_schedule(rng, per, 'uniform'), kernel.draw_schedule(rng, per, 'rr1')]
+    same_process = rng.chance(0.3)
+    if same_process and rng.chance(0.6):
+        # one thread of that process execs (or announces a new thread of) the process itself: the pid all threads share
+        ex_ = [op['ops'][0] for th in threads for op in th['ops'] if op.get('k') == 'seq' and len(op['ops']) == 2 and op['ops'][0].get('name') in ('TRACE_DATA_EXEC', 'TRACE_DATA_NEWTHREAD')]
+        if ex_:
+            d_ = rng.pick(ex_)
+            d_['a'][0 if d_['name'] == 'TRACE_DATA_EXEC' else 1] = 4242
     return {'threads': threads, 'schedules': schedules, 'faults': faults, 'tsmode': worlds.draw_tsmode(rng),
-            'same_process': rng.chance(0.3)}     # the parser starts from a thread map that puts all threads into one process
+            'same_process': same_process}     # the parser starts from a thread map that puts all threads into one process
 
 
 _core = None
